@@ -94,6 +94,9 @@ func genNode(t *rapid.T, depth int, budget *int, isRoot bool, rootMustLive bool)
 	if !isRoot {
 		n.ClosePipes = rapid.IntRange(0, 2).Draw(t, "close-pipes") == 0
 		n.NewGroup = rapid.IntRange(0, 11).Draw(t, "new-group") == 0
+		if n.NewGroup && rapid.Bool().Draw(t, "chatty") {
+			n.ChattyMs = rapid.SampledFrom([]int{20, 100, 300}).Draw(t, "chatty-ms")
+		}
 	}
 	kids := 0
 	if depth < 4 && *budget > 0 {
@@ -155,9 +158,15 @@ func genCase(t *rapid.T) Case {
 }
 
 // escapeeHoldsPipes: some process left the process group (or descends from one that did) and keeps the inherited pipes.
-func escapeeHoldsPipes(n *proctree.Node, escaped bool) bool {
+func escapeeHoldsPipes(n *proctree.Node, escaped bool) bool { return escapeeHolds(n, escaped, true) }
+
+// escapeeHolds: chattyCounts tells whether an escapee that keeps writing holds the call back too. It does not when the run
+// goes through Execute (once the context is done the library refuses what it reads, stops reading, and the next write of
+// the escapee fails); it does when the process was started with Start (nothing refuses its output before Stop has returned).
+func escapeeHolds(n *proctree.Node, escaped bool, chattyCounts bool) bool {
 	escaped = escaped || n.NewGroup
-	if escaped && !n.ClosePipes && longLived(n) {
+	chatty := n.ChattyMs > 0 && n.LiveMs >= longLife // (it keeps writing for as long as it lives, not just before a silent wait)
+	if escaped && !n.ClosePipes && longLived(n) && (!chatty || chattyCounts) {
 		return true
 	}
 	// a descendant of a process that closed its pipes has none to hold
@@ -165,7 +174,7 @@ func escapeeHoldsPipes(n *proctree.Node, escaped bool) bool {
 		return false
 	}
 	for i := range n.Children {
-		if escapeeHoldsPipes(&n.Children[i], escaped) {
+		if escapeeHolds(&n.Children[i], escaped, chattyCounts) {
 			return true
 		}
 	}
@@ -482,7 +491,7 @@ func check(t ev.T, test string, c Case) {
 			ev.Class("known C05-R12c")
 			return
 		}
-		if len(inGroup) == 0 && escapeeHoldsPipes(&c.Tree, false) && !c.AssertKnown {
+		if len(inGroup) == 0 && escapeeHolds(&c.Tree, false, c.Start == "start") && !c.AssertKnown {
 			ev.Exclude("C05-R12b a descendant that left the process group keeps the inherited pipes: the call waits for it")
 			ev.Class("known C05-R12b")
 			return
@@ -516,6 +525,12 @@ func check(t ev.T, test string, c Case) {
 			if len(left) == 0 || time.Now().After(end) {
 				break
 			}
+		}
+		if len(left) > 0 && c.Start == "execute" && rootEnded() && !c.AssertKnown {
+			ev.Exclude("C05-R12c the process itself had already exited when the stop was requested: Execute keeps waiting for the descendants that hold its pipes")
+			ev.Class("known C05-R12c")
+			proctree.KillAll(left)
+			return
 		}
 		if len(left) > 0 {
 			ev.Fail(t, prop, test, c, "%s: %v after Restart returned, processes of the previous run are still alive in its process group: %s", what, boundGone, describeProcs(left))
